@@ -13,6 +13,9 @@
 //!   mfault <drop|dup|hold> <from|-1> <to|-1> <SPDP|SEDP|ANY> <times|-1>   rule on METAtraffic datagrams
 //!   lease <p> <ns>                           rewrite PID_PARTICIPANT_LEASE_DURATION in SPDP datagrams sent by p
 //!   xdeliver <q> <p>                         deliver the latest SPDP announcement of q to p (any domain)
+//!   a scenario whose worker never leaves a zero-delay loop is finished in "stuck" mode (zero delays served as
+//!   50 ms) and its line ends with `| STUCK zero-delay-spin`; after 10 000 zero delays in a row, 20 s CPU or
+//!   60 s wall time the child prints `HANG ...` and exits
 //!   jump <ns>                                set the clock forward by ns in ONE step (one worker wake), then settle
 //!   wake <p>                                 force one worker iteration now (API call on p); reports clock bumps
 //!   now                                      simulated clock
@@ -219,7 +222,17 @@ struct SpinState {
     at: i64,
     count: u32,
     spins: u32,
+    /// consecutive zero-delay requests (reset by any non-zero request)
+    run: u32,
+    /// the worker could not get out of a zero-delay loop although the clock kept moving: from
+    /// then on a zero delay is served as the 50 ms poke, so that the scenario can be finished and
+    /// its observations judged; the output line is marked `STUCK zero-delay-spin`
+    stuck: bool,
 }
+/// zero-delay requests in a row after which the worker is declared stuck (a legitimate spin at the
+/// lease boundary ends after 64), and after which the scenario is given up as `HANG zero-delay-spin`
+const SPIN_SOFT: u32 = 2_000;
+const SPIN_HARD: u32 = 10_000;
 #[derive(Clone)]
 struct DiscTimer {
     inner: vh::sim::SimTimer,
@@ -228,20 +241,35 @@ struct DiscTimer {
 }
 impl dust_dds::runtime::Timer for DiscTimer {
     fn delay(&mut self, duration: core::time::Duration) -> impl std::future::Future<Output = ()> + Send {
+        let mut duration = duration;
         if duration.as_nanos() == 0 {
             let mut now = self.shared.now_ns.lock().unwrap();
             let mut st = self.spin.lock().unwrap();
-            if st.at == *now {
-                st.count += 1;
+            st.run += 1;
+            if st.run >= SPIN_HARD {
+                println!("HANG zero-delay-spin");
+                std::process::exit(4);
+            }
+            if st.run >= SPIN_SOFT {
+                st.stuck = true;
+            }
+            if st.stuck {
+                duration = core::time::Duration::from_millis(50);
             } else {
-                st.at = *now;
-                st.count = 1;
+                if st.at == *now {
+                    st.count += 1;
+                } else {
+                    st.at = *now;
+                    st.count = 1;
+                }
+                if st.count >= 64 {
+                    *now += 1;
+                    st.spins += 1;
+                    st.count = 0;
+                }
             }
-            if st.count >= 64 {
-                *now += 1;
-                st.spins += 1;
-                st.count = 0;
-            }
+        } else {
+            self.spin.lock().unwrap().run = 0;
         }
         self.inner.delay(duration)
     }
@@ -1005,6 +1033,9 @@ fn run_scenario(line: &str) -> String {
         }
         out.push(w.op(op));
     }
+    if w.spin.lock().unwrap().stuck {
+        out.push("STUCK zero-delay-spin".to_string());
+    }
     out.join(" | ")
 }
 
@@ -1014,6 +1045,28 @@ fn main() {
         // child: one scenario on stdin
         let mut line = String::new();
         std::io::stdin().lock().read_line(&mut line).unwrap();
+        // watchdog: a scenario that cannot make progress ends as the output line `HANG ...`:
+        // 20 s of CPU time of this process (a spinning worker burns CPU), 60 s of wall time
+        // (the machine may be heavily loaded) or 1.6 GB of memory
+        std::thread::spawn(|| {
+            let t0 = std::time::Instant::now();
+            loop {
+                std::thread::sleep(std::time::Duration::from_millis(100));
+                let stat = std::fs::read_to_string("/proc/self/stat").unwrap_or_default();
+                let after = stat.rsplit(')').next().unwrap_or("").split_whitespace().collect::<Vec<_>>();
+                // fields after the command name: state is index 0, utime index 11, stime index 12 (clock ticks, 100/s)
+                let ticks: u64 = after.get(11).and_then(|x| x.parse::<u64>().ok()).unwrap_or(0)
+                    + after.get(12).and_then(|x| x.parse::<u64>().ok()).unwrap_or(0);
+                let rss_pages = std::fs::read_to_string("/proc/self/statm")
+                    .ok()
+                    .and_then(|s| s.split_whitespace().nth(1).and_then(|x| x.parse::<u64>().ok()))
+                    .unwrap_or(0);
+                if ticks > 2_000 || t0.elapsed().as_secs() > 60 || rss_pages > 400_000 {
+                    println!("HANG watchdog");
+                    std::process::exit(4);
+                }
+            }
+        });
         std::panic::set_hook(Box::new(|info| {
             let s = info.location().map(|l| format!("{}:{}", l.file(), l.line())).unwrap_or_default();
             println!("PANIC {}", s);
